@@ -5,6 +5,7 @@
 #![allow(unused_imports, dead_code, unused_variables, non_snake_case, unused_mut)]
 use vstd::prelude::*;
 use std::collections::VecDeque;
+use vstd::std_specs::iter::IteratorSpec;
 
 //@@ INCLUDE pos_types.inc.rs
 //@@ TYPE src/check/constrain/constraint/mod.rs | struct | Constraint
@@ -26,6 +27,11 @@ pub struct Context { _x: u8 }
 pub struct Finished { _x: u8 }
 pub struct ClassUnion { _x: u8 }
 pub struct TypeErr { _x: u8 }
+#[derive(Clone, Debug, PartialEq, Eq, Hash)]
+pub struct TrueName { _x: u8 }
+//@@ TYPE src/check/context/arg/mod.rs | struct | FunctionArg
+/// stand-in for itertools::EitherOrBoth
+pub enum EitherOrBoth<A, B> { Both(A, B), Left(A), Right(B) }
 pub type TypeResult<T> = Result<T, Vec<TypeErr>>;
 pub type Unified<T = Finished> = Result<T, Vec<TypeErr>>;
 
@@ -44,6 +50,10 @@ verus! {
 #[verifier::external_type_specification] #[verifier::external_body] pub struct ExFinished(Finished);
 #[verifier::external_type_specification] #[verifier::external_body] pub struct ExClassUnion(ClassUnion);
 #[verifier::external_type_specification] #[verifier::external_body] pub struct ExTypeErr(TypeErr);
+#[verifier::external_type_specification] #[verifier::external_body] pub struct ExTrueName(TrueName);
+#[verifier::external_type_specification] pub struct ExFunctionArg(FunctionArg);
+#[verifier::external_type_specification] #[verifier::reject_recursive_types(A)] #[verifier::reject_recursive_types(B)]
+pub struct ExEitherOrBoth<A, B>(EitherOrBoth<A, B>);
 
 pub assume_specification[<Constraint as Clone>::clone](t: &Constraint) -> (r: Constraint) ensures r == *t;
 #[verifier::external_body] pub fn verif_opaque_string() -> String { unimplemented!() }
@@ -219,6 +229,96 @@ pub open spec fn accept_justified(c: Constraint, ctx: Context) -> bool {
 pub proof fn lemma_reinsert_at_most_once(c: Constraint)
     ensures flagged(c).is_flag, flagged(flagged(c)) == flagged(c),
 {}
+
+
+// ---- unify_fun_arg (C05: method arguments — the right number, allowing defaults; each argument bounded by its parameter) ----
+pub const SELF: &'static str = "self";
+pub const STR: &'static str = "Str";
+pub assume_specification[<Expected as Clone>::clone](t: &Expected) -> (r: Expected) ensures r == *t;
+pub assume_specification[<TrueName as Clone>::clone](t: &TrueName) -> (r: TrueName) ensures r == *t;
+impl Expected {
+    #[verifier::external_body]
+    pub fn new(pos: Position, expect: &Expect) -> (r: Expected) ensures r.pos == pos, r.expect == *expect { unimplemented!() }
+}
+impl Name {
+    #[verifier::external_body] pub fn is_interchangeable(&self, b: bool) -> Name { unimplemented!() }
+    #[verifier::external_body]
+    pub fn as_name(&self, entity: &TrueName, pos: Position) -> (r: TypeResult<Name>) ensures r is Err ==> r->Err_0@.len() >= 1 { unimplemented!() }
+}
+impl TrueName {
+    #[verifier::external_body] pub fn as_mutable(&self) -> TrueName { unimplemented!() }
+}
+/// OUTLINED `ctx_f_arg.name == SELF` (String against &str)
+#[verifier::external_body]
+pub fn verif_string_is(a: &String, b: &str) -> (r: bool) ensures r == (a@ == b@) { unimplemented!() }
+#[verifier::external_body]
+pub fn comma_delm(args: &[Expected]) -> String { unimplemented!() }
+/// A-EXT (itertools): `a.iter().zip_longest(b.iter())` yields Both for the common prefix, then Left / Right for the rest
+pub open spec fn zl_elem<'a>(a: Seq<FunctionArg>, b: Seq<Expected>, i: int) -> EitherOrBoth<&'a FunctionArg, &'a Expected> {
+    if i < a.len() && i < b.len() { EitherOrBoth::Both(&a[i], &b[i]) } else if i < a.len() { EitherOrBoth::Left(&a[i]) } else { EitherOrBoth::Right(&b[i]) }
+}
+pub open spec fn zl_seq<'a>(a: Seq<FunctionArg>, b: Seq<Expected>) -> Seq<EitherOrBoth<&'a FunctionArg, &'a Expected>> {
+    Seq::new(if a.len() >= b.len() { a.len() } else { b.len() }, |i: int| zl_elem(a, b, i))
+}
+#[verifier::external_body]
+pub fn verif_zip_longest<'a>(a: &'a [FunctionArg], b: &'a [Expected]) -> (r: Vec<EitherOrBoth<&'a FunctionArg, &'a Expected>>)
+    ensures r@ == zl_seq(a@, b@), a@.len() <= usize::MAX, b@.len() <= usize::MAX /* slice lengths are usize */,
+{ unimplemented!() }
+/// HAVOCKED: the tail of the Both arm — `if let Ok(Ok(tuple_union)) = expected.ty().map(|name| name.elements(..)) { .. } else
+/// { constr.push(&msg, &ctx_arg_ty, &expected) }`: pushes `parameter type >= argument` (or, for a tuple passed to Str, one
+/// stringy constraint per element); the queue only grows
+#[verifier::external_body]
+pub fn verif_havoc_push_argument(constr: &mut Constraints, ctx_arg_ty: &Expected, expected: &Expected, name: &StringName)
+    ensures old(constr).constraints@.len() <= final(constr).constraints@.len(),
+        forall|i: int| 0 <= i < old(constr).constraints@.len() ==> final(constr).constraints@[i] == old(constr).constraints@[i],
+{ unimplemented!() }
+
+pub open spec fn fun_arg_post(formals: Seq<FunctionArg>, n_args: int, added: usize) -> bool {
+    // no argument too many; every argument meets a typed parameter; every parameter left over has a default
+    &&& n_args <= formals.len()
+    &&& added == n_args
+    &&& forall|i: int| 0 <= i < n_args ==> (#[trigger] formals[i]).ty is Some
+    &&& forall|i: int| n_args <= i < formals.len() ==> (#[trigger] formals[i]).has_default
+}
+
+//@@ FN src/check/constrain/unify/function.rs | free | unify_fun_arg | props=C05,C03
+//@@ REPLACE
+//@@< ctx_f_args.iter().zip_longest(args.iter())
+//@@> verif_zip_longest(ctx_f_args, args)
+//@@ REPLACE
+//@@< ctx_f_arg.name == SELF
+//@@> verif_string_is(&ctx_f_arg.name, SELF)
+//@@ REPLACE
+//@@< if let Ok(Ok($tu)) = expected.ty().map($$) { $$ } else { $$ }
+//@@> verif_havoc_push_argument(constr, &ctx_arg_ty, &expected, name);
+//@@ REPLACE
+//@@< EitherOrBoth::Left($fa) if $$ =>
+//@@> EitherOrBoth::Left($fa) => if $$1 /* guard folded into the arm (the only later arm that matches Left is `_ => {}`) */
+//@@ HINT before
+//@@< for either_or_both in
+//@@> let ghost mut n_done: int = 0;
+//@@ ITERNAME
+//@@< for either_or_both in
+//@@> for either_or_both in zit:
+//@@ LOOPINV
+//@@< for either_or_both in $$.zip_longest($$)
+//@@> invariant zit.history@ + zit.iter.remaining() == zl_seq(ctx_f_args@, args@), zit.history@.len() == zit.index@, zit.index@ <= zl_seq(ctx_f_args@, args@).len(), n_done == zit.index@, added <= zit.index@, ctx_f_args@.len() <= usize::MAX, args@.len() <= usize::MAX,
+//@@ INVCLAIM
+//@@< for either_or_both in $$.zip_longest($$)
+//@@> forall|i: int| 0 <= i < zit.index@ ==> i < ctx_f_args@.len() && (i < args@.len() ==> (#[trigger] ctx_f_args@[i]).ty is Some) && (i >= args@.len() ==> ctx_f_args@[i].has_default), //# loop_every_position_so_far_has_a_typed_parameter_or_a_default [C05]
+//@@ INVCLAIM
+//@@< for either_or_both in $$.zip_longest($$)
+//@@> added == (if zit.index@ <= args@.len() { zit.index@ } else { args@.len() as int }), //# loop_added_counts_the_arguments_matched [C05]
+//@@ HINT before
+//@@< match either_or_both {
+//@@> let ghost k = zit.index@; assert(either_or_both == zl_seq(ctx_f_args@, args@)[k]); assert(either_or_both == zl_elem(ctx_f_args@, args@, k)); proof { n_done = k + 1; }
+//@@ HINT before
+//@@< Ok(added)
+//@@> proof { assert(n_done == zl_seq(ctx_f_args@, args@).len()); if args@.len() > ctx_f_args@.len() { let j = ctx_f_args@.len() as int; assert(j < n_done); let _ = ctx_f_args@[j]; } }
+    ensures
+        r matches Ok(n) ==> fun_arg_post(ctx_f_args@, args@.len() as int, n),     //# method_call_has_the_right_number_of_arguments [C05]
+        r is Err ==> r->Err_0@.len() >= 1,                                       //# rejection_carries_a_diagnostic [C19]
+//@@ END
 
 } // verus!
 
